@@ -11,6 +11,7 @@ package fam_bandtss
 
 import (
 	"fmt"
+	"hash/fnv"
 	"math/rand"
 	"sort"
 	"time"
@@ -79,6 +80,7 @@ type session struct {
 	earned0  map[string]int64
 	interest bool
 	lastCan  string
+	unit     time.Duration // real time per unit of the trace's abstract clock
 }
 
 func (s *session) acct(name string) world.Account {
@@ -90,7 +92,9 @@ func (s *session) acct(name string) world.Account {
 	panic("no member " + name)
 }
 
-func (s *session) rel(t time.Time) int { return int(t.Unix() - s.d.w.Cfg.GenesisTime.Unix()) }
+// rel: a time in units of this trace's abstract clock (one unit = s.unit of real time: a second, or half a second so
+// that execution times and block times carry sub-second parts)
+func (s *session) rel(t time.Time) int { return int(t.Sub(s.d.w.Cfg.GenesisTime) / s.unit) }
 
 func trStatus(st bandtsstypes.TransitionStatus) string {
 	switch st {
@@ -302,6 +306,17 @@ func (d *Driver) RunScript(sc tf.Script) {
 		drained: map[uint64]bool{}, sigs: map[uint64]*sigInfo{}, earned0: map[string]int64{}}
 	r := s.r
 	tk, bk := w.App.TSSKeeper, w.App.BandtssKeeper
+	// the abstract clock's unit: recorded in the script constants (so that a replay uses the same one); scripts
+	// that do not name one get a second or half a second depending on their content
+	if sc.C == nil {
+		sc.C = tf.M{}
+	}
+	if _, ok := sc.C["unit"]; !ok {
+		hh := fnv.New32a()
+		fmt.Fprint(hh, sc.Steps)
+		sc.C["unit"] = []int{1000, 500}[hh.Sum32()%2]
+	}
+	s.unit = time.Duration(tf.Int(sc.C, "unit", 1000)) * time.Millisecond
 	// environment: parameters
 	tp := tk.GetParams(r.Ctx)
 	tp.MaxSigningAttempt, tp.SigningPeriod, tp.CreationPeriod, tp.MaxDESize = 1, uint64(tf.Int(sc.C, "period", Period)), uint64(tf.Int(sc.C, "create", CreatePeriod)), 50
@@ -314,7 +329,7 @@ func (d *Driver) RunScript(sc tf.Script) {
 	if fee > 0 {
 		bp.FeePerSigner = sdk.NewCoins(sdk.NewInt64Coin("uband", fee))
 	}
-	bp.MinTransitionDuration, bp.MaxTransitionDuration = MinDur*time.Second, MaxDur*time.Second
+	bp.MinTransitionDuration, bp.MaxTransitionDuration = MinDur*s.unit, MaxDur*s.unit
 	bp.RewardPercentage = 0
 	if err := bk.SetParams(r.Ctx, bp); err != nil {
 		panic(err)
@@ -425,7 +440,7 @@ func (s *session) apply(step tf.M) bool {
 		}
 		thr, off := tf.Int(step, "thr", 1), tf.Int(step, "off", 1)
 		auth := tf.Str(step, "auth", "authority")
-		msg := bandtsstypes.NewMsgTransitionGroup(addrs, uint64(thr), r.Time.Add(time.Duration(off)*time.Second), s.authority(auth))
+		msg := bandtsstypes.NewMsgTransitionGroup(addrs, uint64(thr), r.Time.Add(time.Duration(off)*s.unit), s.authority(auth))
 		o := r.Deliver(msg)
 		if o.OK() {
 			gid := tk.GetGroupCount(r.Ctx)
@@ -449,7 +464,7 @@ func (s *session) apply(step tf.M) bool {
 	case "Force":
 		auth := tf.Str(step, "auth", "authority")
 		g, off := tf.Int(step, "g", 1), tf.Int(step, "off", 1)
-		msg := bandtsstypes.NewMsgForceTransitionGroup(tss.GroupID(g), r.Time.Add(time.Duration(off)*time.Second), s.authority(auth))
+		msg := bandtsstypes.NewMsgForceTransitionGroup(tss.GroupID(g), r.Time.Add(time.Duration(off)*s.unit), s.authority(auth))
 		o := r.Deliver(msg)
 		s.d.W.Step("Force", tf.M{"auth": auth, "g": g, "off": off}, oc(o), s.project())
 	case "DkgDone":
@@ -607,7 +622,7 @@ func (s *session) apply(step tf.M) bool {
 				s.interest = true
 			}
 		}
-		ob := r.BeginBlock(int64(dt))
+		ob := r.BeginBlockAfter(time.Duration(dt) * s.unit)
 		s.d.W.Step("EndBlock", tf.M{"dt": dt}, tf.M{"ok": o.OK() && ob.OK()}, s.project())
 	default:
 		panic("unknown step " + e)
